@@ -94,9 +94,17 @@ class Rules(LogicType.Rules):
     class MaterialBiconditionalDesignated(rules.OperatorNodeRule):
 
         def _get_sdw_targets(self, s, d, w, /):
+            # Both conditionals must hold: branch on the first, keep the
+            # second as a node of its own. Merely pairing (~lhs, ~rhs) and
+            # (rhs, lhs) loses the cases where one side is a glut (or, for
+            # the undesignated variant, a gap).
+            if d is False:
+                other = s.lhs & ~s.rhs
+            else:
+                other = ~s.rhs | s.lhs
             yield adds(
-                sdwgroup((~s.lhs, d, w), (~s.rhs, d, w)),
-                sdwgroup(( s.rhs, d, w), ( s.lhs, d, w)))
+                sdwgroup((~s.lhs, d, w), (other, d, w)),
+                sdwgroup(( s.rhs, d, w), (other, d, w)))
 
     class MaterialBiconditionalNegatedDesignated(rules.OperatorNodeRule):
 
